@@ -145,8 +145,7 @@ VMM["JOP_PUSH"] = own("JOP_PUSH", "janet_fiber_push(fiber, stack[D]);", "janet_f
 VMM["JOP_PUSH_2"] = own("JOP_PUSH_2", "janet_fiber_push2(fiber, stack[A], stack[E]);", "janet_fiber_push2(fiber, stack[A], stack[D]);")
 VMM["JOP_PUSH_3"] = own("JOP_PUSH_3", "janet_fiber_push3(fiber, stack[A], stack[B], stack[C]);", "janet_fiber_push3(fiber, stack[A], stack[E], stack[C]);")
 VMM["JOP_PUSH_ARRAY"] = own("JOP_PUSH_ARRAY", "janet_indexed_view(stack[D], &vals, &len)", "janet_indexed_view(stack[D + 1], &vals, &len)")
-VMM["JOP_CALL"] = own("JOP_CALL", "Janet callee = stack[E];", "Janet callee = stack[D];")
-VMM["JOP_TAILCALL"] = own("JOP_TAILCALL", "Janet callee = stack[D];", "Janet callee = stack[D + 1];")
+VMM["JOP_CALL"] = ("            stack = fiber->data + fiber->frame;\n            stack[A] = ret;", "            stack = fiber->data + fiber->frame;\n            stack[A + 1] = ret;")
 VMM["JOP_RESUME"] = own("JOP_RESUME", "vm_assert_type(stack[B], JANET_FIBER);", "vm_assert_type(stack[E], JANET_FIBER);")
 VMM["JOP_CANCEL"] = own("JOP_CANCEL", "vm_assert_type(stack[B], JANET_FIBER);", "vm_assert_type(stack[E], JANET_FIBER);")
 VMM["JOP_SIGNAL"] = own("JOP_SIGNAL", "vm_return(s, stack[B]);", "vm_return(s, stack[E]);")
@@ -171,7 +170,7 @@ VMM["JOP_TYPECHECK"] = own("JOP_TYPECHECK", "vm_assert_types(stack[A], E);", "vm
 VMM["JOP_RETURN"] = own("JOP_RETURN", "Janet retval = stack[D];", "Janet retval = stack[D + 1];")
 VMM["JOP_RETURN_NIL"] = own("JOP_RETURN_NIL", "Janet retval = janet_wrap_nil();", "Janet retval = stack[A];")
 VMM["JOP_NOOP"] = ("    VM_OP(JOP_NOOP)\n    vm_pcnext();", "    VM_OP(JOP_NOOP)\n    stack[A] = stack[A];\n    vm_pcnext();")
-NO_VM_MUTANT = {"JOP_JUMP", "JOP_JUMP_IF", "JOP_JUMP_IF_NOT", "JOP_JUMP_IF_NIL", "JOP_JUMP_IF_NOT_NIL"}
+NO_VM_MUTANT = {"JOP_TAILCALL", "JOP_JUMP", "JOP_JUMP_IF", "JOP_JUMP_IF_NOT", "JOP_JUMP_IF_NIL", "JOP_JUMP_IF_NOT_NIL"}
 def vm_mutant(op):
     if op in NO_VM_MUTANT:
         return []
@@ -189,8 +188,10 @@ for op in OPS:
       clause=("%s (%s): every boundary word that janet_verify accepts is executed by run_vm inside its frame of slotcount cells, the declared constants / nested definitions / environments and the bytecode "
               "(no bounds or pointer failure, program counter still inside the bytecode); every boundary word with a register, index or jump target outside the definition is refused by janet_verify" % (op, DOC[sh])),
       mutants=table_mutant(op) + verify_mutant(op) + vm_mutant(op))
+    if op in ("JOP_CALL", "JOP_TAILCALL"):
+        u["defines"] = u["defines"] + ["-DVV_CALLS"]
     if op in NO_VM_MUTANT:
-        u["undecided_clauses"] = common["undecided_clauses"] + ["no interpreter-side mutant is recorded for the jumps: a jump that leaves the bytecode makes instruction dispatch symbolic and CBMC does not terminate; the verifier-side mutants are killed"]
+        u["undecided_clauses"] = common["undecided_clauses"] + ["no interpreter-side mutant is recorded for the jumps and the tail call: a jump that leaves the bytecode (or a callee read from outside the frame) makes instruction dispatch symbolic and CBMC does not terminate; the verifier-side mutants are killed"]
     units.append(u)
 u = dict(common)
 u.update(id="vmv.unknown-opcode", entry="h_vv_unknown", defines=["-DVV_UNKNOWN"], **{"class": "full-domain"},
@@ -198,6 +199,38 @@ u.update(id="vmv.unknown-opcode", entry="h_vv_unknown", defines=["-DVV_UNKNOWN"]
   mutants=[M("opcode-bound-off-by-one", "bytecode.c", "        if ((instr & 0x7F) >= JOP_INSTRUCTION_COUNT) {", "        if ((instr & 0x7F) > JOP_INSTRUCTION_COUNT) {", "no body for|bounds")])
 u.pop("bound", None)
 units.append(u)
+
+
+# ---------------------------------------------------------------- resuming a frame that is suspended at an accepted word
+RESUME_REP = [("0", "JOP_NOOP"), ("0", "JOP_RETURN_NIL"), ("L", "JOP_JUMP"), ("S", "JOP_LOAD_NIL"), ("S", "JOP_TAILCALL"), ("SS", "JOP_CALL"), ("SL", "JOP_JUMP_IF"), ("ST", "JOP_TYPECHECK"), ("SI", "JOP_LOAD_INTEGER"),
+              ("SD", "JOP_CLOSURE"), ("SSS", "JOP_RESUME"), ("SSI", "JOP_ADD_IMMEDIATE"), ("SSU", "JOP_SIGNAL"), ("SES", "JOP_LOAD_UPVALUE"), ("SC", "JOP_LOAD_CONSTANT")]
+R_ASS = ASSUMES + ["the frame is suspended at the word the way unmarshal_one_fiber (marsh.c) leaves it: any program counter inside the bytecode, fiber flags without RESUME_NO_USEVAL / RESUME_NO_SKIP"]
+FAILS = {}
+def R(op, sh, idx=None, reason=None):
+    u = dict(common)
+    uid = "vmv.resume." + op[4:].lower() + (".last" if idx is not None else "")
+    u.update(id=uid, defines=["-DVV_OP=" + op, "-DVV_SHAPE=%d" % SHAPE_NO[sh], "-DVV_RESUME=1"] + (["-DVV_I=%d" % idx] if idx is not None else []), assumes=R_ASS,
+      clause=("resuming, with a value, a frame that is suspended at %s %s(%s): for every boundary word that janet_verify accepts the value is stored inside the frame (register A of the word is below slotcount) and execution continues inside the bytecode; "
+              "out-of-range words are refused" % ("the LAST instruction," if idx is not None else "an instruction", op, DOC[sh])),
+      mutants=(table_mutant(op) or [M("resume-stores-one-slot-up", "vm.c", "    if (!(fiber->flags & JANET_FIBER_RESUME_NO_USEVAL)) stack[A] = in;", "    if (!(fiber->flags & JANET_FIBER_RESUME_NO_USEVAL)) stack[A + 1] = in;", "bounds|dereference|pointer")]))
+    if reason and not os.environ.get("VV_FINDINGS"):
+        u["disabled_reason"] = reason
+    units.append(u)
+REPRO = ("Reproducer on /repo/_build/janet (confirmed with valgrind): (def f (asm '{:slotcount 1 :arity 0 :bytecode [(ldn 0) :loop (sig 0 0 3) (jmp :loop)]})) (def fib (fiber/new f :y)) (resume fib) (def img (buffer (marshal fib))) "
+         "-- the 40-byte image has the frame's pc at byte 16 and the bytecode at bytes 26..37 -- "
+         "(a) (put img 26 0) (put img 27 255) (put img 28 0) (put img 29 0) (put img 16 0) (resume (unmarshal img) :v): first instruction = NOOP with A = 255, pc on it: "
+         "'Invalid write of size 8 at run_vm (vm.c:634) ... 1,920 bytes after a block of size 152 alloc'd by unmarshal_one_fiber (marsh.c:1113)' (valgrind --redzone-size=4096); "
+         "(b) (put img 16 2) (resume (unmarshal img) :v): pc on the last instruction (jmp :loop, A = 0xFF): 'Invalid read of size 4 at run_vm (vm.c:637) ... 0 bytes after a block of size 12 alloc'd by unmarshal_one_def' and the word found there is dispatched (janet prints 'debug: in <anonymous> pc=3').")
+REASON = ("FAILS on the real code (GENUINE memory-safety defect on the unmarshal path, heap overflow): %s. run_vm's resume entry does `stack[A] = in; pc++` for whatever word the frame's program counter points at; janet_verify bounds register A only for shapes that start with a slot, "
+          "and unmarshal_one_fiber (marsh.c) accepts any program counter below bytecode_length and any fiber flags. " + REPRO + " Possible fix: unmarshal_one_fiber accepts only a pc whose instruction is one a fiber can be suspended at (CALL, TAILCALL, RESUME, CANCEL, SIGNAL, PROPAGATE, IN/GET/PUT/NEXT... i.e. register A checked) and that is not the last instruction, or run_vm's entry checks A < slotcount and pc + 1 < end.")
+for sh, op in RESUME_REP:
+    why = None
+    if sh == "0":
+        why = REASON % ("%s has no operands, so the verifier accepts any bits in its operand bytes (e.g. A = 0xFF); resuming a frame suspended there stores the resume value at stack[A], outside the frame (failing obligations: run_vm.pointer_dereference.* at vm.c `stack[A] = in`)" % op)
+    if sh == "L":
+        why = REASON % ("JOP_JUMP's 24-bit offset overlays register A: an accepted backward jump by -1 has A = 0xFF; resuming a frame suspended there stores the resume value at stack[255], outside the frame (failing obligations: run_vm.pointer_dereference.* at vm.c `stack[A] = in`)")
+    R(op, sh, reason=why)
+R("JOP_RETURN_NIL", "0", idx=3, reason=REASON % ("a frame suspended at the last instruction of its function continues at pc + 1, one word past the bytecode (failing obligation: 'the program counter stays inside the bytecode'); the word found there is executed as an instruction"))
 
 json.dump({"units": units}, open(os.path.join(V, 'units', 'C10_vmops.json'), 'w'), indent=1)
 print('%d units' % len(units))
